@@ -209,7 +209,7 @@ class EphysAlfCreator(object):
         for probe in np.unique(self.model.channel_probes):
             ind = self.model.channel_probes == probe
             rawInd[ind] = self.model.channel_mapping[ind] - channel_offset
-            channel_offset += np.max(self.model.channel_mapping[ind])
+            channel_offset = np.max(self.model.channel_mapping[ind]) + 1
         self._save_npy(rawInd_path.name, rawInd)
 
     def make_depths(self):
